@@ -66,7 +66,7 @@ class Batch(object):
 class World(object):
     current = None
 
-    def __init__(self, scheduler='default', seed=0, start_subwf_via_rpc=False, ids='rand'):
+    def __init__(self, scheduler='default', seed=0, start_subwf_via_rpc=False, ids='rand', prims=False):
         CONF = mdb.boot()
         self.CONF = CONF
         World.current = self
@@ -88,6 +88,8 @@ class World(object):
         self.sync_delivered = []    # ids of messages served synchronously (candidates for redelivery)
         self.dispatched = {}        # action_ex id -> number of run_action messages created
         self.writes = []
+        self.prims = []
+        self.record_prims = prims
         self._install()
 
     # -- installation ----------------------------------------------------------------------
@@ -229,6 +231,9 @@ class World(object):
         self.executor_server = executor_server.ExecutorServer(default_executor.DefaultExecutor(), setup_profiler=False)
         self.engine_client = rpc_clients.get_engine_client()
         self._listen_sql()
+        if self.record_prims:
+            from harness import primitives
+            primitives.install(self)
 
     def close(self):
         from mistral.rpc import base as rpc_base
@@ -239,6 +244,9 @@ class World(object):
                 g.abandon()
         if self.lpoll is not None and not self.lpoll.done:
             self.lpoll.abandon()
+        if self.record_prims:
+            from harness import primitives
+            primitives.uninstall()
         self.lib_utils.utc_now_sec = self._saved['now']
         self.lib_utils.generate_unicode_uuid = self._saved['uuid']
         rpc_base._IMPL_CLIENT = self._saved['impl']
@@ -473,6 +481,7 @@ class World(object):
     def step(self, st):
         """Perform one step.  Returns an event dict (kind, args, exc)."""
         self.writes = []
+        del self.prims[:]
         kind = st[0]
         ev = {'kind': kind, 'exc': 'none'}
         try:
@@ -622,6 +631,14 @@ class World(object):
             raise ValueError(op)
 
     # -- definitions --------------------------------------------------------------------------------
+    def define_workbook(self, yaml_text, project='proj-A', namespace=''):
+        from mistral.services import workbooks as wb_service
+        self.auth_context.set_ctx(mdb.ctx(project))
+        try:
+            return wb_service.create_workbook_v2(yaml_text, namespace=namespace)
+        finally:
+            self.auth_context.set_ctx(None)
+
     def define(self, yaml_text, project='proj-A', namespace=''):
         from mistral.services import workflows as wf_service
         self.auth_context.set_ctx(mdb.ctx(project))
